@@ -136,7 +136,10 @@ def validate_events(module, events, constants=None, shards=None, scratch=None, t
     shards = shards or min(NCPU, max(1, len(events) // 40))
     scratch = scratch or tempfile.mkdtemp(prefix="trace_")
     os.makedirs(scratch, exist_ok=True)
-    chunks = [events[i::shards] for i in range(shards)]
+    # a chunk is deserialised as one TLA+ value: keep its JSON text below ~16 MB (more chunks than JVMs run in turns)
+    approx = sum(len(json.dumps(e)) for e in events[:: max(1, len(events) // 200)]) * max(1, len(events) // 200)
+    nchunks = max(shards, -(-approx // (16 * 1024 * 1024)))
+    chunks = [events[i::nchunks] for i in range(nchunks)]
     chunks = [c for c in chunks if c]
     verdicts = {}
     stats = {"states": 0, "transitions": 0, "validated": 0, "inconclusive": [], "wall": 0.0, "skipped": {}}
@@ -146,7 +149,7 @@ def validate_events(module, events, constants=None, shards=None, scratch=None, t
         idx, chunk = idx_chunk
         return _validate_chunk(module, chunk, constants, scratch, "s%d" % idx, timeout, header, heap)
 
-    with ThreadPoolExecutor(max_workers=len(chunks)) as ex:
+    with ThreadPoolExecutor(max_workers=min(len(chunks), max(shards, 1))) as ex:
         for v, st in ex.map(one, enumerate(chunks)):
             verdicts.update(v)
             stats["states"] += st["states"]
@@ -193,6 +196,21 @@ def _validate_chunk(module, chunk, constants, scratch, tag, timeout, header, hea
     if r.error is None and r.rc == 0 and done == len(chunk):
         st["validated"] = len(chunk)
         return verdicts, st
+    if any(m in r.out for m in ("GC overhead limit exceeded", "OutOfMemoryError", "Java heap space")) and len(chunk) > 1:
+        # the JVM ran out of memory (reading the chunk, or in the middle of it): no event is to blame - halve the chunk
+        if depth > 200:
+            raise TLCError("out of memory validating %s\n%s" % (module, r.out[-2000:]))
+        out_v, out_st = {}, {"states": 0, "transitions": 0, "validated": 0, "inconclusive": [], "skipped": {}}
+        half = len(chunk) // 2
+        for k, part in enumerate((chunk[:half], chunk[half:])):
+            v2, st2 = _validate_chunk(module, part, constants, scratch, "%s_h%d" % (tag, k), timeout, header, heap, depth + 1)
+            out_v.update(v2)
+            for key in ("states", "transitions", "validated"):
+                out_st[key] += st2[key]
+            out_st["inconclusive"] += st2["inconclusive"]
+            for key, val in st2.get("skipped", {}).items():
+                out_st["skipped"][key] = out_st["skipped"].get(key, 0) + val
+        return out_v, out_st
     # TLC stopped inside event number done+1 (0-based index `done`): isolate it
     if r.rc == 124:
         raise TLCError("TLC timeout validating %s\n%s" % (module, r.out[-2000:]))
